@@ -316,6 +316,7 @@ type VC struct {
 	bounded   []Term // stack of bound variable names (informational)
 	defs      map[string]string
 	heapTypes map[string]types.Type
+	heapSorts map[string]Sort
 	asserted  map[string]int
 	lets      map[string][]letDef // binder name -> let definitions made inside it
 	binders   []string            // stack of open binders
@@ -770,11 +771,19 @@ type heapID struct {
 func (vc *VC) objHeap(t types.Type) heapID {
 	h := heapID{"H_" + mangle(shortTypeKey(t)), arraySort(SInt, vc.sortOf(t))}
 	vc.noteHeapType(h.name, t)
-	return h
+	return vc.noteHeapSort(h)
 }
 func (vc *VC) arrHeap(elem types.Type) heapID {
 	h := heapID{"A_" + mangle(shortTypeKey(elem)), arraySort(SInt, arraySort(SInt, vc.sortOf(elem)))}
 	vc.noteHeapType(h.name, elem)
+	return vc.noteHeapSort(h)
+}
+
+func (vc *VC) noteHeapSort(h heapID) heapID {
+	if vc.heapSorts == nil {
+		vc.heapSorts = map[string]Sort{}
+	}
+	vc.heapSorts[h.name] = h.sort
 	return h
 }
 
@@ -789,9 +798,9 @@ func (vc *VC) noteHeapType(name string, t types.Type) {
 func (vc *VC) mapHeaps(m *types.Map) (d, v, l heapID) {
 	k := mangle(shortTypeKey(m.Key())) + "_" + mangle(shortTypeKey(m.Elem()))
 	ks, vs := vc.sortOf(m.Key()), vc.sortOf(m.Elem())
-	return heapID{"MD_" + k, arraySort(SInt, arraySort(ks, SBool))},
-		heapID{"MV_" + k, arraySort(SInt, arraySort(ks, vs))},
-		heapID{"ML_" + k, arraySort(SInt, SInt)}
+	return vc.noteHeapSort(heapID{"MD_" + k, arraySort(SInt, arraySort(ks, SBool))}),
+		vc.noteHeapSort(heapID{"MV_" + k, arraySort(SInt, arraySort(ks, vs))}),
+		vc.noteHeapSort(heapID{"ML_" + k, arraySort(SInt, SInt)})
 }
 
 // constants ------------------------------------------------------------------
